@@ -51,7 +51,17 @@ func init() {
 		{refcar.MhSha256, []byte("x"), 13},
 		{refcar.MhIdentity, E1, 17},
 		{refcar.MhSha256, D1, 0}, // exact duplicate of record 0
+		// same bucket as D1, identical for the first 8 / first 31 bytes: digests that differ only late
+		{refcar.MhSha256, latePrefix(D1, 8), 19},
+		{refcar.MhSha256, latePrefix(D1, 31), 23},
 	}
+}
+
+// latePrefix returns a copy of d that equals d on the first n bytes and differs at byte n.
+func latePrefix(d []byte, n int) []byte {
+	out := append([]byte{}, d...)
+	out[n] ^= 0x55
+	return out
 }
 
 func (r c11rec) cid() cid.Cid {
@@ -344,7 +354,7 @@ func genC11(tier string, emit func(any)) {
 		}
 	}
 	rec(0, nil)
-	names := []string{"a", "b", "a'", "a0", "ia", "i", "s", "t", "k", "i0"}
+	names := []string{"a", "b", "a'", "a0", "ia", "i", "s", "t", "k", "i0", "ip1", "ip2"}
 	l := 2
 	if tier == "thorough" {
 		l = 3
@@ -364,13 +374,13 @@ func init() {
 		Gen:    genC11,
 		Run:    runC11,
 		Decode: kit.DecodeAs[C11Case],
-		Rule: "every record multiset up to the bound over 14 records (4 hash codes, widths 0/1/20/32/64/65, equal digests under different codes, duplicate digests at different offsets, exact duplicates, offsets up to 2^63) x ALL load-order permutations x both codecs; " +
+		Rule: "every record multiset up to the bound over 16 records (4 hash codes, widths 0/1/20/32/64/65, equal digests under different codes, duplicate digests at different offsets, exact duplicates, offsets up to 2^63) x ALL load-order permutations x both codecs; " +
 			"plus Flatten(session index) vs GenerateIndex(finished file) for every put history up to the bound; non-trivial = >=2 records",
 		Bound: func(tier string) map[string]any {
 			if tier == "thorough" {
-				return map[string]any{"multiset_size": 5, "records": 14, "permutations": "all", "flatten_history_len": 3}
+				return map[string]any{"multiset_size": 5, "records": 16, "permutations": "all", "flatten_history_len": 3}
 			}
-			return map[string]any{"multiset_size": 4, "records": 14, "permutations": "all", "flatten_history_len": 2}
+			return map[string]any{"multiset_size": 4, "records": 16, "permutations": "all", "flatten_history_len": 2}
 		},
 		Assumptions: []string{"refcar index codec is correct"},
 	})
